@@ -565,6 +565,15 @@ func run(rt *rapid.T, steps []step, g sim.Geometry) (fail string, w *world) {
 			if ub > 0 {
 				w.lab("unrequested-block-inside-the-piece")
 			}
+			if s.A%2 == 1 {
+				// ... and every other block of the piece behind it
+				for b := int64(0); b < int64(x.Blocks(i)); b++ {
+					if b*16384 != ub {
+						m.r.Send(ref.Msg{Kind: ref.KPiece, Index: uint32(i), Begin: uint32(b * 16384), Data: x.Data(i, b*16384, 16384)})
+					}
+				}
+				w.lab("unrequested-whole-piece")
+			}
 		case "reject":
 			if !connected || !m.fast || len(m.pending) == 0 {
 				continue
